@@ -262,6 +262,9 @@ fn run_handles(sc: &J, t: &mut Tracer) {
 			kira::verif::set_stream_ring_capacity(ring);
 			let (dec, stats) = ScriptDecoder::new(len, vec![3, 1, 2], 0, 0);
 			DEC_WAITS.store(0, Ordering::SeqCst);
+			// hold > 0: once the whole stream has been decoded, the next decode() - the one a later seek asks for - hangs until the
+			// driver has rendered `hold` more callbacks (a slow decoder: the ring runs dry while audio is still to come)
+			let dec = if sc["hold"].as_u64().unwrap_or(0) > 0 { dec.with_block_after(len) } else { dec };
 			let h = s.sim.manager.play(StreamingSoundData::from_decoder(dec.with_eos(1))).unwrap();
 			let t0 = std::time::Instant::now();
 			while DEC_WAITS.load(Ordering::SeqCst) < 1 && !stats.dropped.load(Ordering::SeqCst) && t0.elapsed() < Duration::from_secs(5) {
@@ -375,6 +378,7 @@ fn run_handles(sc: &J, t: &mut Tracer) {
 				let res = s.sim.callback(NF);
 				let mut obs = Map::new();
 				let mut cont = Map::new();
+				let mut after_cb: Option<J> = None;
 				let l = res.out[2 * (NF - 1)];
 				let r = res.out[2 * (NF - 1) + 1];
 				match scene {
@@ -407,8 +411,32 @@ fn run_handles(sc: &J, t: &mut Tracer) {
 						let st = s.stats.as_ref().unwrap();
 						let w = DEC_WAITS.load(Ordering::SeqCst);
 						let t1 = std::time::Instant::now();
-						while DEC_WAITS.load(Ordering::SeqCst) <= w + 1 && !st.dropped.load(Ordering::SeqCst) && t1.elapsed() < Duration::from_secs(3) {
+						while DEC_WAITS.load(Ordering::SeqCst) <= w + 1
+							&& !st.dropped.load(Ordering::SeqCst)
+							&& !(st.blocked.load(Ordering::SeqCst) && !st.release.load(Ordering::SeqCst))
+							&& t1.elapsed() < Duration::from_secs(3)
+						{
 							std::thread::sleep(Duration::from_micros(100));
+						}
+						if st.blocked.load(Ordering::SeqCst) && !st.release.load(Ordering::SeqCst) {
+							// the decoder hangs in the decode() a seek asked for: the ring runs dry meanwhile; these callbacks are not
+							// judged (nothing new can be heard), what is judged is that the seek is heard once the decoder delivers
+							let hold = sc["hold"].as_u64().unwrap_or(0);
+							let mut silent = 0;
+							for _ in 0..hold {
+								let r = s.sim.callback(NF);
+								if hear(&r.out).zero {
+									silent += 1;
+								}
+							}
+							let state = guarded(|| state_name(s.s2.as_ref().unwrap().state())).unwrap_or("panic");
+							after_cb = Some(json!({"a": "held", "callbacks": hold, "silent": silent, "state": state}));
+							st.release.store(true, Ordering::SeqCst);
+							let w = DEC_WAITS.load(Ordering::SeqCst);
+							let t1 = std::time::Instant::now();
+							while DEC_WAITS.load(Ordering::SeqCst) <= w + 1 && !st.dropped.load(Ordering::SeqCst) && t1.elapsed() < Duration::from_secs(3) {
+								std::thread::sleep(Duration::from_micros(100));
+							}
 						}
 					}
 					"S" => {
@@ -426,6 +454,9 @@ fn run_handles(sc: &J, t: &mut Tracer) {
 				}
 				t.ev(json!({"a": "cb", "obs": obs, "jump": jump, "cont": cont, "n": NF,
 					"panicked": res.panicked.is_some(), "m": res.monitor(2)}));
+				if let Some(e) = after_cb {
+					t.ev(e);
+				}
 				if res.panicked.is_some() {
 					break;
 				}
